@@ -63,7 +63,7 @@ theorem attFetch_good {st : HState} (ep : Nat) (r : FetchRes) (h : Good .att st)
   cases r with
   | noIdx => exact h
   | fail => exact h
-  | ok c ds => exact ⟨keyNodup_addAll _ _ h.1, fun hk => by cases hk⟩
+  | ok c ds => exact ⟨keyNodup_addAll _ _ (keyNodup_reset ep h.1), fun hk => by cases hk⟩
 
 theorem attFetchNextPart_noExec (n : Net) (st : HState) (e s : Nat) (r : FetchRes) :
     NoExec (attFetchNextPart n st e s r).2 := by
@@ -190,26 +190,58 @@ theorem attTick_spec {n : Net} {st : HState} (slot clock : Nat) (r1 r2 : FetchRe
         attProcessFetching_noExec _ _ _ _ _ _, NoExec.nil⟩
       simp [attTick]
 
-theorem attStep_good {n : Net} {st : HState} (e : Event) (h : Good .att st) : Good .att (attStep n st e).1 := by
-  cases e with
-  | tick slot clock r1 r2 => exact (attTick_spec slot clock r1 r2 h).1
-  | reorg slot prev cur =>
-    simp only [attStep, attReorg]
-    split
+theorem attReorg_store (n : Net) (st : HState) (slot : Nat) (prev cur : Bool) :
+    ∀ x ∈ (attReorg n st slot prev cur).store, x ∈ st.store := by
+  intro x hx
+  unfold attReorg at hx
+  split at hx
+  · split at hx
+    · exact (mem_reset.mp (mem_reset.mp hx).1).1
+    · exact (mem_reset.mp hx).1
+  · split at hx
+    · split at hx
+      · exact (mem_reset.mp hx).1
+      · exact hx
+    · exact hx
+
+theorem attIndices_store (n : Net) (st : HState) (c : Nat) : ∀ x ∈ (attIndices n st c).store, x ∈ st.store := by
+  intro x hx
+  unfold attIndices at hx
+  split at hx
+  · exact (mem_reset.mp hx).1
+  · exact hx
+
+theorem attReorg_good {n : Net} {st : HState} (slot : Nat) (prev cur : Bool) (h : Good .att st) :
+    Good .att (attReorg n st slot prev cur) := by
+  unfold attReorg
+  split
+  · split
+    · exact good_reset (st := { st with store := st.store.reset (n.epoch slot), fetchFirst := true, fetchCur := true, fetchNext := true }) _
+        (good_reset (n.epoch slot) h)
+    · exact good_reset (n.epoch slot) h
+  · split
     · split
-      · exact good_reset (st := { st with store := st.store.reset (n.epoch slot), fetchFirst := true, fetchCur := true, fetchNext := true }) _
-          (good_reset (n.epoch slot) h)
-      · exact good_reset (n.epoch slot) h
-    · split
-      · split
-        · exact good_reset (st := { st with fetchNext := true }) _ h
-        · exact h
+      · exact good_reset (st := { st with fetchNext := true }) _ h
       · exact h
-  | indices clock =>
-    simp only [attStep, attIndices]
-    split
-    · exact good_reset (st := { st with indicesChanged := true, fetchCur := true, fetchNext := true }) _ h
     · exact h
+
+theorem attIndices_good {n : Net} {st : HState} (clock : Nat) (h : Good .att st) : Good .att (attIndices n st clock) := by
+  unfold attIndices
+  split
+  · exact good_reset (st := { st with indicesChanged := true, fetchCur := true, fetchNext := true }) _ h
+  · exact h
+
+theorem repairPre_store (st : HState) (le : Option Nat) (K : Nat) : (repairPre st le K).store = st.store := by
+  unfold repairPre; split <;> rfl
+
+theorem lateFix_store (st : HState) (le : Option Nat) (K : Nat) : (lateFix st le K).store = st.store := by
+  unfold lateFix; split <;> rfl
+
+theorem good_repairPre {k : Kind} {st : HState} (le : Option Nat) (K : Nat) (h : Good k st) : Good k (repairPre st le K) :=
+  good_of_store h (Or.inl (repairPre_store st le K))
+
+theorem good_lateFix {k : Kind} {st : HState} (le : Option Nat) (K : Nat) (h : Good k st) : Good k (lateFix st le K) :=
+  good_of_store h (Or.inl (lateFix_store st le K))
 
 /-! ### proposer -/
 
@@ -344,6 +376,17 @@ theorem syncStep_good {n : Net} {st : HState} (e : Event) (h : Good .sync st) : 
     simp only [syncStep, syncIndices]
     split <;> exact h
 
+theorem syncReorg_good {n : Net} {st : HState} (slot : Nat) (cur : Bool) (h : Good .sync st) :
+    Good .sync (syncReorg n st slot cur) := by
+  unfold syncReorg
+  split
+  · exact good_reset (st := { st with fetchNext := true }) _ h
+  · exact h
+
+theorem syncIndices_good {n : Net} {st : HState} (clock : Nat) (h : Good .sync st) : Good .sync (syncIndices n st clock) := by
+  unfold syncIndices
+  split <;> exact h
+
 /-! ### the `execs` atom of a tick -/
 
 def execOf (k : Kind) (n : Net) (slot clock : Nat) (s : HState) : List Atom :=
@@ -428,25 +471,52 @@ theorem exec_window (k : Kind) (n : Net) (slot clock : Nat) (s : HState) :
 
 /-! ### one step, any handler -/
 
-theorem step_good (k : Kind) (n : Net) {st : HState} (e : Event) (h : Good k st) : Good k (step k n st e).1 := by
-  cases k
-  · exact attStep_good e h
-  · exact propStep_good e h
-  · exact syncStep_good e h
+/-- the state in which the ticker branch of handler `k` starts its work -/
+def tickStart (k : Kind) (n : Net) (rs : RState) (slot : Nat) : HState :=
+  match k with
+  | .att => repairPre rs.st rs.le (n.epoch slot)
+  | .prop => rs.st
+  | .sync => repairPre rs.st rs.le (n.periodOfSlot slot)
 
-theorem step_tick_shape (k : Kind) (n : Net) {st : HState} (slot clock : Nat) (r1 r2 : FetchRes) (h : Good k st) :
-    TickShape k (execOf k n slot clock) (step k n st (.tick slot clock r1 r2)).2 := by
+theorem step_good (k : Kind) (n : Net) {rs : RState} (e : Event) (h : Good k rs.st) : Good k (step k n rs e).1.st := by
+  cases k with
+  | att =>
+    cases e with
+    | tick slot clock r1 r2 => exact (attTick_spec slot clock r1 r2 (good_repairPre rs.le _ h)).1
+    | reorg slot prev cur =>
+      simp only [step, attReorgN]
+      split
+      · exact good_lateFix _ _ (attReorg_good slot prev cur h)
+      · exact attReorg_good slot prev cur h
+    | indices clock =>
+      simp only [step, attIndicesN]
+      split
+      · exact good_lateFix _ _ (attIndices_good clock h)
+      · exact attIndices_good clock h
+  | prop => exact propStep_good e h
+  | sync =>
+    cases e with
+    | tick slot clock r1 r2 => exact (syncTick_spec slot clock r1 r2 (good_repairPre rs.le _ h)).1
+    | reorg slot prev cur =>
+      simp only [step, syncReorgN]
+      split
+      · exact good_lateFix _ _ (syncReorg_good slot cur h)
+      · exact syncReorg_good slot cur h
+    | indices clock => exact syncIndices_good clock h
+
+theorem step_tick_shape (k : Kind) (n : Net) {rs : RState} (slot clock : Nat) (r1 r2 : FetchRes) (h : Good k rs.st) :
+    TickShape k (execOf k n slot clock) (step k n rs (.tick slot clock r1 r2)).2 := by
   cases k
-  · exact (attTick_spec slot clock r1 r2 h).2
+  · exact (attTick_spec slot clock r1 r2 (good_repairPre rs.le _ h)).2
   · exact (propTick_spec slot clock r1 h).2
-  · exact (syncTick_spec slot clock r1 r2 h).2
+  · exact (syncTick_spec slot clock r1 r2 (good_repairPre rs.le _ h)).2
 
-theorem step_reorg_out (k : Kind) (n : Net) (st : HState) (s : Nat) (p c : Bool) : (step k n st (.reorg s p c)).2 = [] := by
+theorem step_reorg_out (k : Kind) (n : Net) (rs : RState) (s : Nat) (p c : Bool) : (step k n rs (.reorg s p c)).2 = [] := by
   cases k <;> rfl
-theorem step_indices_out (k : Kind) (n : Net) (st : HState) (c : Nat) : (step k n st (.indices c)).2 = [] := by
+theorem step_indices_out (k : Kind) (n : Net) (rs : RState) (c : Nat) : (step k n rs (.indices c)).2 = [] := by
   cases k <;> rfl
 
-theorem init_good (k : Kind) (n : Net) (clock : Nat) (r : FetchRes) : Good k (initH k n clock r).1 := by
+theorem init_good (k : Kind) (n : Net) (clock : Nat) (r : FetchRes) : Good k (initH k n clock r).1.st := by
   have h0 : ∀ k b1 b2 b3 b4, Good k ⟨[], b1, b2, b3, b4⟩ := fun k _ _ _ _ => ⟨keyNodup_nil, fun _ x hx => by cases hx⟩
   cases k with
   | att => exact h0 _ _ _ _ _
@@ -461,15 +531,15 @@ theorem init_noExec (k : Kind) (n : Net) (clock : Nat) (r : FetchRes) : NoExec (
 
 /-! ### at most once, over whole runs -/
 
-theorem atMostOnce_runFrom (k : Kind) (n : Net) : ∀ (evs : List Event) (st : HState) (lt : Option Nat),
-    Good k st → ticksIncreasing lt evs = true →
-    (execPairs (runFrom k n st evs)).Nodup ∧
-      ∀ p ∈ execPairs (runFrom k n st evs), ∀ t, lt = some t → t < p.1 := by
+theorem atMostOnce_runFrom (k : Kind) (n : Net) : ∀ (evs : List Event) (rs : RState) (lt : Option Nat),
+    Good k rs.st → ticksIncreasing lt evs = true →
+    (execPairs (runFrom k n rs evs)).Nodup ∧
+      ∀ p ∈ execPairs (runFrom k n rs evs), ∀ t, lt = some t → t < p.1 := by
   intro evs
   induction evs with
-  | nil => intro st lt _ _; exact ⟨List.nodup_nil, fun p hp => by cases hp⟩
+  | nil => intro rs lt _ _; exact ⟨List.nodup_nil, fun p hp => by cases hp⟩
   | cons e es ih =>
-    intro st lt hg ht
+    intro rs lt hg ht
     have hg' := step_good k n e hg
     cases e with
     | tick slot clock r1 r2 =>
@@ -505,13 +575,13 @@ theorem atMostOnce_run (k : Kind) (n : Net) (clock0 : Nat) (r0 : FetchRes) (evs 
 
 /-! ### slot window, over whole runs -/
 
-theorem window_runFrom (k : Kind) (n : Net) : ∀ (evs : List Event) (st : HState), Good k st →
-    WindowOK k n (runFrom k n st evs) := by
+theorem window_runFrom (k : Kind) (n : Net) : ∀ (evs : List Event) (rs : RState), Good k rs.st →
+    WindowOK k n (runFrom k n rs evs) := by
   intro evs
   induction evs with
-  | nil => intro st _ s c ds h; cases h
+  | nil => intro rs _ s c ds h; cases h
   | cons e es ih =>
-    intro st hg s c ds hm
+    intro rs hg s c ds hm
     have hg' := step_good k n e hg
     simp only [runFrom] at hm
     rcases List.mem_append.mp hm with h | h
